@@ -7,7 +7,7 @@ from collections import Counter
 
 import asyncstdlib as A
 
-from ..loop import CTX, drive, Cancel, Suspend
+from ..loop import run_finalizers, CTX, drive, Cancel, Suspend
 from ..probes import Item, SrcState, Plan, make_source
 from .C07 import TOOLS, TOOL_NAMES, CountIt, _uid, STOP
 
@@ -207,6 +207,7 @@ def execute(case, raise_at=None, cancel_at=None, susp=0, raise_type="Exception",
                                 if ending == "abandon":
                                     del ait
                                     gc.collect()
+                                    run_finalizers()  # the loop gets around to closing what was abandoned
                                 else:
                                     await ait.aclose()
                     elif op[0] == "scope":
